@@ -341,7 +341,8 @@ func (t *GzipPacked) UnmarshalTL(d *tl.Decoder) error {
 		return err
 	}
 
-	t.Obj, err = tl.DecodeUnknownObject(obj)
+	// a packed vector is decoded with the hints given for the enclosing message
+	t.Obj, err = tl.DecodeUnknownObject(obj, d.ExpectedTypes()...)
 	if err != nil {
 		return errors.Wrap(err, "parsing gzipped object")
 	}
